@@ -1,14 +1,14 @@
 CONSTANTS
-  Ns = {1, 2, 3, 4}
-  Cs = {1, 2, 3, 4}
+  Ns = {4}
+  Cs = {3}
   MaxNow = 8
-  Steps = {1, 2, 3}
+  Steps = {1, 2}
   StrictCool = FALSE
   NoReset = FALSE
   SwallowApp = FALSE
   ResetOnRecover = FALSE
-SPECIFICATION MCSpec
-INVARIANT Refines
-CONSTRAINT Bound
-VIEW View
+SPECIFICATION CSpec
+VIEW CView
+CONSTRAINT CBound
+ACTION_CONSTRAINT Emit
 CHECK_DEADLOCK FALSE
